@@ -311,3 +311,26 @@ def is_neutral(v, op, res_dtype):
     if dt.kind == "b" and v is False:
         return True
     return False
+
+
+def dtype_kind(dtype_str):
+    """numpy-style kind letter of a result dtype given as string (numpy, pandas tz-aware, Arrow-backed, polars)."""
+    s = str(dtype_str)
+    try:
+        return np.dtype(s).kind
+    except TypeError:
+        pass
+    low = s.lower()
+    if low.startswith("datetime") or low.startswith("timestamp"):
+        return "M"
+    if low.startswith("timedelta") or low.startswith("duration"):
+        return "m"
+    if low.startswith("uint"):
+        return "u"
+    if low.startswith("int"):
+        return "i"
+    if low.startswith("float") or low.startswith("double"):
+        return "f"
+    if low.startswith("bool"):
+        return "b"
+    return "?"
